@@ -323,14 +323,14 @@ func checkC19(ctx *RunCtx) int {
 
 func checkC20(ctx *RunCtx) int {
 	rep := NewReport()
-	runWorldChecks(ctx, rep, "C20", []string{"C20"}, ctx.N(40000, 300000), ctx.N(300, 5000), true)
+	runWorldChecks(ctx, rep, "C20", []string{"C20"}, ctx.N(120000, 600000), ctx.N(300, 5000), true)
 	extra := map[string]interface{}{}
 	concurrentRegulator(ctx, rep, "C20", extra)
 	return finish(ctx, rep, &CheckSpec{
 		Extra: extra,
 		Prop:  "C20", Level: "exploration", EvalCounter: "fixpoint_searches", NonTrivSet: "nontrivial20",
-		Rule:        "from the end state of every random history and from checkpoints inside long tournaments (any phase after the start): sweeps that sync every table once in a random order with no eliminations and carry out all instructions, until a sweep asks for no release, hand-out or break; bounded by (tables at start + 8) sweeps - convergence is restated as bounded progress, the bound exposes oscillation and does not certify a constant; a table told to break must release its whole membership and each of those players must then be queued or seated elsewhere; the concurrent world must settle by sweeps after its concurrent phase too. evaluations = fixpoint searches; non-trivial = distinct histories whose end state needed at least one rebalancing sweep; histogram of sweeps needed is in coverage.histograms",
-		Required:    []string{"fixpoint_searches", "class_rebalancing_needed", "class_table_broken"},
+		Rule:        "from the end state of every random history and from checkpoints inside long tournaments (any phase after the start): sweeps that sync every table once - in a fresh random order every sweep, or fullest table first, or emptiest table first - with no eliminations, also while registration is on hold (status back to pending), and carry out all instructions, until a sweep asks for no release, hand-out or break; bounded by (tables at start + 8) sweeps - convergence is restated as bounded progress, the bound exposes oscillation and does not certify a constant; a table told to break must release its whole membership and each of those players must then be queued or seated elsewhere; the concurrent world must settle by sweeps after its concurrent phase too. evaluations = fixpoint searches; non-trivial = distinct histories whose end state needed at least one rebalancing sweep; histogram of sweeps needed is in coverage.histograms",
+		Required:    []string{"fixpoint_searches", "class_rebalancing_needed", "class_table_broken", "class_sweeps_fullest_table_first", "class_sweeps_emptiest_table_first", "class_sweeps_while_registration_on_hold"},
 		Assumptions: []string{"liveness restated as bounded progress: no finite run decides 'eventually settles'"},
 	})
 }
